@@ -2,7 +2,7 @@
 \* 2 linked parameters (mixer and clock), buffer 2, callbacks of 1 or 3 frames, <= 3 callbacks, <= 5 gameplay calls
 SPECIFICATION Spec
 CONSTANTS
-  S = 1024
+  S = 4096
   Mods = {1, 2, 3}
   Params = {1, 2}
   NS = 2
